@@ -270,9 +270,15 @@ def fragment(draw, hostile=True, multibyte=False):
     return draw(st.sampled_from(MULTIBYTE))
 
 
+DEGENERATE = ["", " ", "\n", "1", "\u00a7", "Id.", "supra", "v.", "(", ")", "1 U.S. 1", "U.S.", "___", "at", "Id. at", "1 U.S.", "U.S. 1", "1 U.S. at",
+              "See", "\u00b6", "&", "\n\n", "1 U.S. 1\n", "\n1 U.S. 1", "Id. at 5", "Bar, supra", "Foo v. Bar", "Foo v.", "v. Bar, 1 U.S. 1"]
+
+
 @st.composite
 def document(draw, hostile=True, multibyte=False, max_frags=8, mutate=True):
     """A citation-dense document. hostile: splice hostile fragments and character-level mutations."""
+    if draw(st.integers(0, 39)) == 0:
+        return draw(st.sampled_from(DEGENERATE))  # empty, one character, one token, half a citation
     n = draw(st.integers(1, max_frags))
     out = []
     if draw(st.integers(0, 7)) == 0:
@@ -285,6 +291,8 @@ def document(draw, hostile=True, multibyte=False, max_frags=8, mutate=True):
     for _ in range(n):
         out.append(draw(fragment(hostile=hostile, multibyte=multibyte)))
         out.append(draw(st.sampled_from(SEPARATORS)))
+    if draw(st.integers(0, 5)) == 0:
+        out.pop()  # no separator after the last fragment: the document ends exactly where its last token ends
     s = "".join(out)
     if mutate and s and draw(st.integers(0, 9)) < 4:
         alphabet = PUNCT + (HOSTILE if hostile else []) + (MULTIBYTE if multibyte else [])
